@@ -259,6 +259,96 @@ struct SrvScript {
         return true;
     }
 
+    // Something that happens while no session is up and ends without one (spec/IqTracker.tla, Attempt):
+    //   precut    the connection drops right after the client's stream header (resumption still possible)
+    //   authfail  the server answers the authentication request with <failure/>
+    //   bindfail  authentication succeeds, resource binding is answered with an error (with SASL 2 binding is
+    //             part of authentication: the same <failure/> as authfail)
+    //   userabort the application calls disconnectFromServer() while the authentication request is unanswered
+    //   abandon   the application calls disconnectFromServer() while there is no connection at all
+    // Returns when the client has reported `disconnected` (abandon: when posted events have run).
+    bool attempt(const QString &r)
+    {
+        if (r == "abandon") {
+            c.disconnectFromServer();
+            qxvDrain(3);
+            absorb();
+            return true;
+        }
+        const int n0 = peer.connections;
+        const int dsig0 = disconnectedSignals;
+        c.connectToServer(c.configuration());
+        if (!peer.waitConnection(n0 + 1, timeoutMs)) {
+            return fail("no connection");
+        }
+        if (auto *cs = c.findChild<QSslSocket *>()) {
+            cs->setSocketOption(QAbstractSocket::LowDelayOption, 1);
+        }
+        if (peer.sock) {
+            peer.sock->setSocketOption(QAbstractSocket::LowDelayOption, 1);
+        }
+        smActive = false;
+        if (!waitFor("<stream:stream")) {
+            return fail("no stream header");
+        }
+        absorb();
+        auto ended = [&]() {
+            if (!qxvSpin([&] { return disconnectedSignals > dsig0; }, timeoutMs)) {
+                return fail("no disconnected signal after the failed attempt (" + r + ")");
+            }
+            qxvDrain(2);
+            absorb();
+            return true;
+        };
+        if (r == "precut") {
+            peer.cut();
+            return ended();
+        }
+        if (sasl2) {
+            peer.write((header() + "<stream:features><authentication xmlns='urn:xmpp:sasl:2'><mechanism>PLAIN</mechanism><inline>"
+                                   "<bind xmlns='urn:xmpp:bind:0'><inline><feature var='urn:xmpp:sm:3'/></inline></bind>"
+                                   "<sm xmlns='urn:xmpp:sm:3'/></inline></authentication></stream:features>")
+                           .toUtf8());
+            if (!waitFor("</authenticate>")) {
+                return fail("no <authenticate/>");
+            }
+        } else {
+            peer.write((header() + "<stream:features><mechanisms xmlns='urn:ietf:params:xml:ns:xmpp-sasl'>"
+                                   "<mechanism>PLAIN</mechanism></mechanisms></stream:features>")
+                           .toUtf8());
+            if (!waitFor("<auth")) {
+                return fail("no <auth/>");
+            }
+        }
+        absorb();
+        if (r == "userabort") {
+            c.disconnectFromServer();
+            return ended();
+        }
+        if (r == "authfail" || sasl2) {
+            peer.write(sasl2 ? "<failure xmlns='urn:xmpp:sasl:2'><not-authorized xmlns='urn:ietf:params:xml:ns:xmpp-sasl'/></failure>"
+                             : "<failure xmlns='urn:ietf:params:xml:ns:xmpp-sasl'><not-authorized/></failure>");
+            return ended();
+        }
+        // bindfail (classic): no <sm/> offered, so the client goes straight to resource binding
+        peer.write("<success xmlns='urn:ietf:params:xml:ns:xmpp-sasl'/>");
+        if (!waitFor("<stream:stream")) {
+            return fail("no stream restart");
+        }
+        absorb();
+        peer.write((header() + "<stream:features><bind xmlns='urn:ietf:params:xml:ns:xmpp-bind'/></stream:features>").toUtf8());
+        if (!waitFor("<bind")) {
+            return fail("no bind request");
+        }
+        static const QRegularExpression idRe(QStringLiteral("<iq[^>]*\\sid=\"([^\"]*)\""));
+        auto m = idRe.match(QString::fromUtf8(absorb()));
+        peer.write(QStringLiteral("<iq type='error' id='%1'><bind xmlns='urn:ietf:params:xml:ns:xmpp-bind'/><error type='cancel'>"
+                                  "<conflict xmlns='urn:ietf:params:xml:ns:xmpp-stanzas'/></error></iq>")
+                       .arg(m.captured(1))
+                       .toUtf8());
+        return ended();
+    }
+
     // the connection drops under the client
     bool cut()
     {
